@@ -473,6 +473,16 @@ def step (st : St) (line : String) : St × String :=
       (st, both (toString m) (toString (decide (cnt ≥ 2))))
     | none => (st, modelOnly "bad-op")
   -- ---------------------------------------------------------------- black-box transcripts (C16 C03 C13)
+  | ["spec.legaluci", b] =>   -- UCI texts of the legal moves by the RULES (for judging black-box bestmove lines)
+    match parseBoard b with
+    | some b =>
+      let uci (m : Move) : String :=
+        let sq (s : Nat) : String := String.ofList [Char.ofNat (97 + s % 8), Char.ofNat (49 + s / 8)]
+        sq m.src ++ sq m.dst ++ (if m.kind == .promotion then
+          (match m.piece with | .knight => "n" | .bishop => "b" | .rook => "r" | .queen => "q" | _ => "") else "")
+      let l := ((Spec.legalMoves (Spec.abs b)).map uci).mergeSort (fun a b => decide (a ≤ b))
+      (st, both "?" (" ".intercalate l))
+    | none => (st, modelOnly "bad-op")
   | "uci.run" :: _ =>
     -- uci.run <line>;;<line>;;...   (raw text after the op name; lines may contain any spacing)
     let raw := (line.trimAscii.toString.drop 8).toString
